@@ -12,6 +12,8 @@ package nats
 import (
 	"errors"
 	"fmt"
+	"runtime"
+	"strconv"
 	"strings"
 	"sync"
 	"time"
@@ -298,6 +300,17 @@ func (nc *Conn) IsClosed() bool { return nc == nil || nc.closed }
 // IsConnected reports link state.
 func (nc *Conn) IsConnected() bool { return nc != nil && !nc.closed && !nc.down }
 
+func goID() int64 {
+	var buf [64]byte
+	n := runtime.Stack(buf[:], false)
+	f := strings.Fields(string(buf[:n]))
+	if len(f) > 1 {
+		id, _ := strconv.ParseInt(f[1], 10, 64)
+		return id
+	}
+	return -1
+}
+
 func validPubSubject(s string) bool {
 	return s != ""
 }
@@ -350,6 +363,7 @@ type Subscription struct {
 	draining bool
 	grant    chan struct{} // controlled mode: one token per delivery
 	ended    bool
+	gid      int64
 	busy     bool // a callback is running (it may be blocked): no further grant until it returns
 	// sync inbox
 	inbox chan *Msg
@@ -782,6 +796,9 @@ func (b *Bus) Subscriptions() []string {
 // does), replies to requests go straight to the requester's inbox.
 
 func (s *Subscription) ctlLoop() {
+	s.mu.Lock()
+	s.gid = goID()
+	s.mu.Unlock()
 	for range s.grant {
 		s.mu.Lock()
 		var m *Msg
@@ -820,6 +837,7 @@ func (s *Subscription) endCtl() {
 
 // PendingDelivery describes the head of one subscription's queue.
 type PendingDelivery struct {
+	Thread  int64  // goroutine id of the subscription's dispatcher
 	Seq     uint64 // global publish order
 	Conn    int
 	Pattern string
@@ -842,7 +860,7 @@ func (b *Bus) PendingDeliveries() []PendingDelivery {
 		s.mu.Lock()
 		if !s.ended && !s.busy && len(s.pending) > 0 {
 			m := s.pending[0]
-			out = append(out, PendingDelivery{m.seq, s.conn.id, s.Subject, m.Subject, s})
+			out = append(out, PendingDelivery{s.gid, m.seq, s.conn.id, s.Subject, m.Subject, s})
 		}
 		s.mu.Unlock()
 	}
